@@ -75,6 +75,19 @@ def build_mxh(race=False):
     return out
 
 
+def build_tool(name):
+    """Build harness/cmd/<name> (a plain helper binary, no murex dependency needed but same module)."""
+    if name in _built:
+        return _built[name]
+    build_mxh()
+    out = os.path.join(BUILD, name)
+    p = run(['go', 'build', '-tags', 'verif', '-o', out, './cmd/' + name], cwd=os.path.join(VERIF, 'harness'), env=goenv(), timeout=600)
+    if p.returncode != 0:
+        raise Infra('%s build failed:\n%s' % (name, p.stderr.decode('utf-8', 'replace')[-3000:]))
+    _built[name] = out
+    return out
+
+
 def build_murex():
     if 'murex' in _built:
         return _built['murex']
